@@ -8,6 +8,7 @@ import (
 	"flag"
 	"fmt"
 	"os"
+	"regexp"
 	"sort"
 	"strconv"
 	"strings"
@@ -28,6 +29,10 @@ func main() {
 		os.Exit(cmdExplain(os.Args[2:]))
 	case "guards":
 		os.Exit(cmdGuards(os.Args[2:]))
+	case "atoms":
+		os.Exit(cmdAtoms(os.Args[2:]))
+	case "enums":
+		os.Exit(cmdEnums(os.Args[2:]))
 	case "calls":
 		os.Exit(cmdCalls(os.Args[2:]))
 	case "manifest":
@@ -370,6 +375,55 @@ func cmdCalls(args []string) int {
 				for _, g := range f.GuardsAt(s) {
 					fmt.Printf("      | %s\n", g)
 				}
+			}
+		}
+	}
+	return 0
+}
+
+// cmdEnums prints the tagged switches over an enum type: lndlint enums <patterns> <pkg.Type>
+func cmdEnums(args []string) int {
+	fs := flag.NewFlagSet("enums", flag.ExitOnError)
+	repo := fs.String("repo", "/repo", "repository root")
+	fs.Parse(args)
+	if fs.NArg() < 2 {
+		usage()
+	}
+	res, err := load.Load(load.Config{Dir: *repo, Patterns: strings.Split(fs.Arg(0), ",")})
+	if err != nil {
+		fmt.Fprintln(os.Stderr, err)
+		return 2
+	}
+	prog := an.NewProg(res)
+	tp := strings.SplitN(fs.Arg(1), ".", 2)
+	fmt.Println("constants:", prog.EnumConsts(tp[0], tp[1]))
+	for _, es := range prog.EnumSwitches(tp[0], tp[1]) {
+		fmt.Printf("%s %s tag=%s default=%v %v\n", es.Fn.ID, es.Where, es.Tag, es.HasDefault, es.Clauses)
+	}
+	return 0
+}
+
+// cmdAtoms prints every condition atom whose canonical text matches a regexp:
+// lndlint atoms <patterns> <regexp>
+func cmdAtoms(args []string) int {
+	fs := flag.NewFlagSet("atoms", flag.ExitOnError)
+	repo := fs.String("repo", "/repo", "repository root")
+	fs.Parse(args)
+	if fs.NArg() < 2 {
+		usage()
+	}
+	res, err := load.Load(load.Config{Dir: *repo, Patterns: strings.Split(fs.Arg(0), ",")})
+	if err != nil {
+		fmt.Fprintln(os.Stderr, err)
+		return 2
+	}
+	prog := an.NewProg(res)
+	re := regexp.MustCompile(fs.Arg(1))
+	for _, f := range prog.Funcs(false) {
+		for _, v := range f.Graph().V {
+			c := f.AtomCanon(v)
+			if c != "" && re.MatchString(c) {
+				fmt.Printf("%s %s: %s\n", f.ID, f.Where(v.Pos()), c)
 			}
 		}
 	}
